@@ -460,7 +460,7 @@ def reach_without(cfg, src, cut):
     return cfg.reachable(src, edge_ok=lambda a, b_, label: not (a.id in cut and label == cut[a.id]))
 
 
-def sym_expr(fi, expr, at, depth=6, allow_calls=(), keep=()):
+def sym_expr(fi, expr, at, depth=6, allow_calls=(), keep=(), trace=None):
     """`expr` with the local names it reads replaced by their definitions, where that is a faithful description of the value at
     cfg node `at`: the name has exactly one reaching definition, the defining expression contains no call, and - for values
     that read attributes - no statement of the function stores one of those attributes on a path from the definition to `at`.
@@ -494,9 +494,40 @@ def sym_expr(fi, expr, at, depth=6, allow_calls=(), keep=()):
                 return True
         return False
 
+    def cond_texts(nid):
+        out = set()
+        for (t, p) in cfg.conditions_of(nid):
+            tn = cfg.node_of(t)
+            # the test read through single-definition temporaries (a flag such as `found = k in table` becomes its definition)
+            e2 = rec(t, tn.id, 2) if tn is not None else t
+            txt = ast.unparse(e2)
+            # only tests over names that are bound once in the function keep their value between two evaluations
+            names = {x.id for x in ast.walk(e2) if isinstance(x, ast.Name)}
+            if all(len(du.defs.get(nm, [])) <= 1 for nm in names):
+                out.add((txt, p))
+        return out
+
+    def feasible(defs, node_id):
+        """reaching definitions minus those made under a condition that contradicts the conditions of the use"""
+        if len(defs) < 2:
+            return defs
+        use = cond_texts(node_id)
+        keep_ = []
+        for d_ in defs:
+            if d_[0] == "ENTRY":
+                keep_.append(d_)
+                continue
+            dc = cond_texts(d_[0])
+            if any((t, not p) in use for (t, p) in dc):
+                continue
+            keep_.append(d_)
+        return keep_
+
     def rec(e, node_id, d):
         if isinstance(e, ast.Name) and isinstance(e.ctx, ast.Load) and d > 0 and e.id not in keep:
             defs = du.reaching(e.id, node_id)
+            if len(defs) > 1 and d > 2:
+                defs = feasible(defs, node_id)
             if len(defs) == 1 and defs[0][0] != "ENTRY" and isinstance(defs[0][1], ast.AST) and defs[0][2] not in ("aug",):
                 v = defs[0][1]
                 # (a list / dict / set display is an object that is mutated later, not a value)
@@ -504,6 +535,8 @@ def sym_expr(fi, expr, at, depth=6, allow_calls=(), keep=()):
                                           ast.SetComp, ast.GeneratorExp)) or
                            (isinstance(x, ast.Call) and norm(x.func) not in allow_calls) for x in ast.walk(v)) \
                         and isinstance(v, ast.expr) and not clobbered(defs[0][0], v):
+                    if trace is not None:
+                        trace[e.id] = defs[0][0]
                     return rec(v, defs[0][0], d - 1)
             return e
         if isinstance(e, ast.AST):
